@@ -105,6 +105,49 @@ class Verdict:
         self.nontrivial = nontrivial
 
 
+def cross_check(samples, timeout_s=20):
+    """re-discharge exported verdict queries with the cvc5 binary and the system z3 (4.8.12); returns
+    dict(checked, agree, disagree=[...], errors=[...]).  Any disagreement or `(error` line is reported."""
+    import os
+    import subprocess
+    import tempfile
+
+    out = dict(checked=0, agree=0, disagree=[], errors=[], solvers=[])
+    solvers = []
+    if os.path.exists("/usr/bin/z3"):
+        solvers.append(("z3-4.8.12", ["/usr/bin/z3", "-T:%d" % timeout_s]))
+    for c in ("/usr/bin/cvc5", "/usr/local/bin/cvc5"):
+        if os.path.exists(c):
+            solvers.append(("cvc5-binary", [c, "--lang", "smt2", "--tlimit", str(timeout_s * 1000)]))
+            break
+    out["solvers"] = [n for n, _ in solvers]
+    for text, expected in samples:
+        # z3's to_smt2() already ends with (check-sat)
+        with tempfile.NamedTemporaryFile("w", suffix=".smt2", delete=False) as fh:
+            fh.write("(set-logic ALL)\n" + text if "set-logic" not in text else text)
+            path = fh.name
+        try:
+            for name, cmd in solvers:
+                try:
+                    r = subprocess.run(cmd + [path], capture_output=True, text=True, timeout=timeout_s + 10)
+                except subprocess.TimeoutExpired:
+                    out["errors"].append(f"{name}: timeout")
+                    continue
+                ans = r.stdout.strip().splitlines()
+                out["checked"] += 1
+                if any("(error" in ln for ln in ans) or not ans:
+                    out["errors"].append(f"{name}: {(r.stdout + r.stderr)[:160]}")
+                elif ans[0].strip() == expected:
+                    out["agree"] += 1
+                elif ans[0].strip() in ("unknown", "timeout"):
+                    out["errors"].append(f"{name}: {ans[0]}")
+                else:
+                    out["disagree"].append(dict(solver=name, answer=ans[0], z3py=expected))
+        finally:
+            os.unlink(path)
+    return out
+
+
 def _b(x):
     if x is True:
         return z3.BoolVal(True)
@@ -134,6 +177,9 @@ class Explorer(Ctx):
         self.memo = {}
         self.consults = 0
         self.exhaustive = False
+        self.xsample = None       # list of (smt2 text, z3's answer) when cross-checking is on
+        self.xsample_max = 0
+        self.xsample_every = 1
 
     # -- variables ---------------------------------------------------------
     def declare(self, const):
@@ -162,6 +208,9 @@ class Explorer(Ctx):
             self.s.add(*extra)
             r = self.s.check()
             m = self.s.model() if r == z3.sat else None
+            if self.xsample is not None and len(self.xsample) < self.xsample_max and r != z3.unknown \
+                    and (self.queries % self.xsample_every) == 0:
+                self.xsample.append((self.s.to_smt2(), str(r)))   # verdict query kept for the second-solver cross-check
             self.s.pop()
         else:
             r = self.s.check()
@@ -302,5 +351,6 @@ class Explorer(Ctx):
             nontrivial=nontrivial,
             samples=samples,
             known_seen=known_seen,
+            xsamples=list(self.xsample or ()),
         )
         return stats, candidates
